@@ -789,8 +789,7 @@ def strip(e):
 
 
 def try_payload(e):
-    """If e is the Continue payload of `Try::branch(x)` return x (the value
-    being `?`-ed), else None."""
+    """compat: the value being `?`-ed if e is the Continue payload of a branch"""
     if e.k == "vfield" and e.a[1] == "Continue":
         b = e.a[0]
         if b.k == "call" and b.a[0].trait == "std::ops::Try" and b.a[0].name == "branch":
@@ -798,13 +797,77 @@ def try_payload(e):
     return None
 
 
+FAIL_VARIANTS = ("std::result::Result::Err", "std::option::Option::None")
+OK_VARIANTS = ("std::result::Result::Ok", "std::option::Option::Some", "std::ops::ControlFlow::Continue")
+PAYLOAD_PRESERVING = ("ok_or", "ok_or_else", "map_err", "inspect_err", "inspect", "or_else_err", "copied_err")
+
+
+def is_failure_value(e):
+    """an Option/Result value that is certainly None / Err (cannot feed a
+    success payload)"""
+    es = unmut_shallow(e)
+    if es.k == "agg" and es.a[0] in FAIL_VARIANTS:
+        return True
+    if es.k == "call" and es.a[0].name == "from_residual" and (es.a[0].trait or "").endswith("FromResidual"):
+        return True
+    return False
+
+
+def unmut_shallow(e):
+    e = strip(e)
+    while e.k == "mutated":
+        e = strip(e.a[0])
+    return e
+
+
+def success_of(x, depth=0):
+    """The success payload of an Option/Result-valued expression, in normal
+    form: looks through `?` (Try::branch), ok_or/map_err (payload preserving),
+    explicit Ok(..)/Some(..) construction and joins of alternatives (failure
+    alternatives are dropped).  A call that returns an Option/Result stands
+    for its own success payload."""
+    x = unmut_shallow(x)
+    if depth > 30:
+        return x
+    if x.k == "call":
+        c = x.a[0]
+        if c.trait == "std::ops::Try" and c.name == "branch" and x.a[1]:
+            return success_of(x.a[1][0], depth + 1)
+        if c.name in PAYLOAD_PRESERVING and x.a[1] and (c.fn.startswith("std::option::Option") or c.fn.startswith("std::result::Result")):
+            return success_of(x.a[1][0], depth + 1)
+        if c.name == "ok" and c.fn.startswith("std::result::Result") and x.a[1]:
+            return success_of(x.a[1][0], depth + 1)
+        if c.name == "and_then" and len(x.a[1]) == 2:
+            f = strip(x.a[1][1])
+            # x.and_then(Result::ok): Option<Result<T>> -> Option<T>
+            if f.k == "const" and isinstance(f.a[0], tuple) and f.a[0][0] == "fn" and f.a[0][1].endswith("::ok"):
+                return success_of(success_of(x.a[1][0], depth + 1), depth + 1)
+        return x
+    if x.k == "agg" and x.a[0] in OK_VARIANTS and "0" in x.a[1]:
+        return x.a[1]["0"]
+    if x.k == "phi":
+        alts = [success_of(a, depth + 1) for a in x.a[0] if not is_failure_value(a)]
+        uniq = []
+        for a in alts:
+            if not any(repr(strip(a)) == repr(strip(u)) for u in uniq):
+                uniq.append(a)
+        if len(uniq) == 1:
+            return uniq[0]
+        if uniq:
+            return E("phi", uniq)
+        return x
+    if x.k == "vfield" and x.a[1] in ("Ok", "Some", "Continue"):
+        # payload of a payload (Option<Result<T>>)
+        return success_of(success_of(x.a[0], depth + 1), depth + 1) if False else x
+    return x
+
+
 def ok_payload(e):
-    """x if e is `(x as Ok).0` / `(x as Some).0` / the `?` payload of x."""
-    t = try_payload(e)
-    if t is not None:
-        return t
-    if e.k == "vfield" and e.a[1] in ("Ok", "Some"):
-        return e.a[0]
+    """x if e is `(x as Ok).0` / `(x as Some).0` / the `?` payload of x, with x
+    reduced to its success normal form (see success_of)."""
+    e = unmut_shallow(e)
+    if e.k == "vfield" and e.a[1] in ("Ok", "Some", "Continue") and str(e.a[2]) == "0":
+        return success_of(e.a[0])
     return None
 
 
